@@ -396,6 +396,7 @@ class Engine:
         ob = Obligation(name, pc, goal, kind, line, p.pathid(), self.cur_func, self.cur_tags)
         ob.extra = dict(extra or {})
         ob.extra["labels"] = list(p.labels)
+        ob.extra["observables"] = getattr(self, "observables", [])
         ob.extra["axioms"] = list(self.sum_axioms())
         p.obligations.append(ob)
         return ob
@@ -634,6 +635,7 @@ class Engine:
         return v
 
     spec_mode = False
+    observables = []
     known_regions = {}
     region_frame = None
     cur_func = None
